@@ -9,6 +9,8 @@ import (
 	"fmt"
 	"net/http"
 	"net/url"
+	"os"
+	"path/filepath"
 	"strconv"
 	"strings"
 	"sync"
@@ -43,6 +45,8 @@ type built struct {
 	discarded int
 	// conns: connections the http target accepted (set by finish)
 	conns int64
+	// answFile: the file the gun's answ log goes to ("" = answlog is off)
+	answFile string
 }
 
 func (b *built) discardedNote() string {
@@ -59,6 +63,9 @@ func (b *built) cleanup() {
 	for _, f := range b.files {
 		pand.Remove(f)
 	}
+	if b.answFile != "" {
+		_ = os.Remove(b.answFile) // (the guns keep their descriptors; the directory goes with the child)
+	}
 	if b.close != nil {
 		b.close()
 	}
@@ -70,7 +77,9 @@ func writeFile(b *built, prefix, ext string, data []byte) string {
 	return name
 }
 
-func build(c Case, viol *violations) (*built, error) {
+// build makes pool `id` of the engine: its files, its target and its config section. wd is the working directory of the
+// process (answ logs are real files: lib/answlog opens them with os.Create).
+func build(c Case, id, wd string, viol *violations) (*built, error) {
 	b := &built{}
 	b.outFile = pand.TempName("c11out", "."+c.Agg)
 	b.files = append(b.files, b.outFile)
@@ -104,8 +113,21 @@ func build(c Case, viol *violations) (*built, error) {
 	if c.SharedClients > 0 {
 		gun["shared-client"] = map[string]any{"enabled": true, "client-number": c.SharedClients}
 	}
+	if c.AnswLog != "" {
+		answ := map[string]any{"enabled": true}
+		if c.AnswLog == answOwn {
+			b.answFile = filepath.Join(wd, "answ-"+id+strings.ReplaceAll(pand.TempName("", ".log"), "/", ""))
+			answ["path"] = b.answFile
+		} else {
+			b.answFile = filepath.Join(wd, "answ.log") // the default of the option: `answ.log` in the working directory
+		}
+		if c.AnswFilter != "" {
+			answ["filter"] = c.AnswFilter
+		}
+		gun["answlog"] = answ
+	}
 	b.pool = map[string]any{
-		"id": "p", "gun": gun, "ammo": ammo, "result": result,
+		"id": id, "gun": gun, "ammo": ammo, "result": result,
 		"rps":     rpsConf(c),
 		"startup": startupConf(c),
 		// the default of the option is set by the CLI only; the harness always names it
